@@ -61,6 +61,13 @@ def gen_training(rng, n_examples=None, n_features=None, kind=None, max_ex=8, max
                     X[i][c] = X[i][src]
     elif kind == "all_zero":
         X = [[0] * n_features for _ in range(n_examples)]
+    elif kind == "graded_examples":
+        # snapshots of very different amplitude (one loud event among quiet ones): powers of two, still exact
+        X = [[ri(-5, 5) for _ in range(n_features)] for _ in range(n_examples)]
+        for i in range(n_examples):
+            if rng.random() < 0.5:
+                e = rng.choice([8, 12, 16, 20, -8, -12])
+                X[i] = [v * 2.0 ** e for v in X[i]]
     else:
         raise ValueError(kind)
     return np.array(X, dtype=float).reshape(n_examples, n_features), kind
